@@ -30,9 +30,9 @@ CLAIMED = {
                 text="TLC explores every interleaving of the writer's poll and the task's acknowledge/close at the grain of single atomic operations (spurious CAS failures included) for eight scenarios and checks the credit/wake-up contract (the pinned check-register-return algorithm is rejected as a self-test); an in-crate loom module (hook, feature verif-hooks) lets loom enumerate the interleavings of the REAL poll_obtain_write_permission / acknowledge / disallow_write under its C11 model, and TLC validates the observable history of every execution (results, which poll's waker was woken, final credit) against the same contract.",
                 note="TLA+ model is sequentially consistent; weak-memory behaviours are explored on the implementation side only (loom's C11 approximation: no load buffering / out-of-thin-air); quick tier bounds loom preemptions at 3",
                 ref="DESIGN.md section 4 (C12)"),
-    "C17": dict(engine="tls", technique="TLA+ decision table + identity-reload state machine (TlsAuth.tla) enumerated by TLC; real rustls handshakes over in-memory duplex validated by TLC",
-                text="TLC enumerates the 72-cell authentication matrix and all reload interleavings of a small identity state machine written from the property text (negative-control models must fail); every cell and script is executed as real handshakes with rcgen-generated chains through the repository's own tls_connect / make_server_config / reload_tls_identity, with an application-data round trip deciding 'reached the server', and TLC validates every logged observation.",
-                note="thin use of TLA+ (decision table + small state machine); cryptography trusted to rustls/webpki/rcgen; the application client is TLS 1.3 only, TLS 1.2 is covered on the server side with a reference client",
+    "C17": dict(engine="tls", technique="TLA+ decision table + identity-reload state machine (TlsAuth.tla) enumerated by TLC; real rustls handshakes (in-memory duplex and the real server_main with SIGUSR1 reloads over loopback TCP) validated by TLC",
+                text="TLC enumerates the 72-cell authentication matrix and all reload interleavings of a small identity state machine written from the property text (it carries the server's client CA: a reload replaces certificate and key only; negative-control models -- stale, in-place, disconnecting, client-CA-dropping reloads -- must fail); every cell and script is executed as real handshakes with rcgen-generated chains: through the repository's own tls_connect / make_server_config / reload_tls_identity over an in-memory duplex, and through the real server entry point (server_main in-process on a loopback port, certificate files rewritten, SIGUSR1 raised, probes with a trusted client certificate, none, and one from another CA before and after every reload), with an application-data round trip deciding 'reached the server', and TLC validates every logged observation.",
+                note="thin use of TLA+ (decision table + small state machine); cryptography trusted to rustls/webpki/rcgen; the application client is TLS 1.3 only, TLS 1.2 is covered on the server side with a reference client; the real-server part uses real time only for generous deadlines (30 s) that separate tool errors from observations",
                 ref="DESIGN.md section 4 (C17)"),
     "C14": dict(engine="gate", technique="TLA+ decision table (Upgrade.tla) enumerated by TLC; every case sent in-process to the real hyper Service with an unknown-path twin; responses validated by TLC",
                 text="The upgrade gate's decision table is written in TLA+ from the property text and PROTOCOL.md (three-valued: a variant the property does not decide is 'either'); TLC checks its theorems over all verdict vectors and enumerates the valid request, all single and pair deviations (thorough: triples, a configured backend) x configurations; every case is built as a concrete http::Request, sent to rusty_penguin_lib::server::State in-process together with the identical request on an unknown path, and TLC re-classifies the logged request octets itself and validates status, headers, body, protocol header and an independently computed RFC 6455 accept hash.",
